@@ -495,7 +495,7 @@ def run(ctx, obl):
     res.assumptions = ["http.Client turns the userinfo of the request URL into a Basic Authorization header (net/http behaviour, applied to the expected header set)",
                        "url.JoinPath, url.Values.Encode, http.Header.Add, json.Marshal, fmt %v are the real ones on both sides",
                        "the doc text handed to the recognisers is ast.CommentGroup.Text() of the rendered comment (reconstructed by the renderer)",
-                       "base URLs are well-formed absolute URLs without a query"]
+                       "base URLs are well-formed absolute URLs; a query string they carry is in canonical (sorted, unescaped) form; userinfo, escaped path characters, IPv6 hosts, doubled/trailing slashes are generated"]
     return res
 
 
